@@ -496,7 +496,15 @@ class ClassParser(BaseParser):
         ):
             # if __init__ is declared but passed, we still make a new one
 
-            def __init__(_obj_self, _d: dict = None, **kwargs):
+            def __init__(*args, **kwargs):
+                # (self, data: dict = None, /, **kwargs) spelled without named parameters:
+                # every keyword - "_obj_self" and "_d" as well - belongs to the data
+                if not 1 <= len(args) <= 2:
+                    raise TypeError(
+                        f"__init__() takes from 1 to 2 positional arguments but {len(args)} were given"
+                    )
+                _obj_self = args[0]
+                _d = args[1] if len(args) > 1 else None
                 parser = self.get_parser(_obj_self)
 
                 context = getattr(_obj_self, "__context__", None)
@@ -631,13 +639,17 @@ def init_dataclass(
 )
 def transform_dataclass(transformer: TypeTransformer, data, cls):
     if isinstance(data, (list, tuple)) and not transformer.options.no_explicit_cast:
-        if data:
-            if transformer.options.no_data_loss and len(data) > 1:
-                raise TypeError
-            data = data[0]
-            # otherwise the data will become dict then fill the dataclass
-            if type(data) == cls:
-                return data
+        try:
+            if data:
+                if transformer.options.no_data_loss and len(data) > 1:
+                    raise TypeError
+                data = data[0]
+                # otherwise the data will become dict then fill the dataclass
+                if type(data) == cls:
+                    return data
+        except Exception as e:
+            # a list / tuple subclass whose own __len__ / __getitem__ raises is a value that does not parse
+            raise exc.ParseError(type=cls, value=data, origin_exc=e) from e
 
     if transformer.options.allow_subclasses:
         if isinstance(data, cls):
